@@ -100,7 +100,7 @@ def _jobs(tier, seed):
 
     gs = stage_tbl.SPECIAL + gen.WITNESSES + gen.family(3, 3, limit=p["ntrace"] // 4, rng_seed=55) + gen.family(4, 2, limit=p["ntrace"] // 4, rng_seed=56) + \
         gen.idiom_family(limit=p["ntrace"] // 6, rng_seed=57) + gen.epschain_family(limit=p["ntrace"] // 6, rng_seed=58)
-    jobs = [{"g": g, "origin": "det"} for g in gs]
+    jobs = [{"g": g, "origin": "det"} for g in gs + gen.ctx_family()]
     rng = random.Random(23000017 * (seed + 1))
     k = 0
     while k < p["ntrace"] // 6:
